@@ -273,8 +273,15 @@ def check_translation(case, ctx):
                                         f'(offset ({dx},{dy})): {v0} vs {v1}',
                                         api=cls.__name__, column=a)
                 if cls is RadialProfile:
-                    d0 = sorted(zip(np.round(p0.data_radius, 9), np.asarray(p0.data_profile)))
-                    d1 = sorted(zip(np.round(p1.data_radius, 9), np.asarray(p1.data_profile)))
+                    # (x + dx) is rounded: pixels within rounding of the
+                    # outermost radius may enter or leave the raw profile
+                    rlim = float(rr[-1]) - 1e-7
+                    d0 = sorted((r_, v_) for r_, v_ in zip(
+                        np.round(p0.data_radius, 9), np.asarray(p0.data_profile))
+                        if r_ < rlim)
+                    d1 = sorted((r_, v_) for r_, v_ in zip(
+                        np.round(p1.data_radius, 9), np.asarray(p1.data_profile))
+                        if r_ < rlim)
                     if not (len(d0) == len(d1) and np.allclose(
                             np.array(d0), np.array(d1), rtol=1e-9, atol=1e-12,
                             equal_nan=True)):
@@ -344,6 +351,20 @@ SWAP = {'xcentroid': 'ycentroid', 'bbox_xmin': 'bbox_ymin', 'bbox_xmax': 'bbox_y
 SWAP.update({v: k for k, v in list(SWAP.items())})
 
 
+def _thin(mc):
+    """Second central moments with a (numerically) vanishing determinant:
+    the pixels are collinear.  The covariance code branches on the *sign* of
+    that determinant (negative -> NaN, zero -> regularised), which for an
+    exactly singular matrix is decided by rounding, so shape parameters of
+    such rows are not compared."""
+    mc = np.asarray(value(mc), float)
+    if not np.isfinite(mc[0, 0]) or mc[0, 0] == 0:
+        return True
+    a_, b_, c_ = mc[0, 2] / mc[0, 0], mc[1, 1] / mc[0, 0], mc[2, 0] / mc[0, 0]
+    det = a_ * c_ - b_ * b_
+    return abs(det) <= 1e-9 * (abs(a_ * c_) + b_ * b_ + 1e-300)
+
+
 def check_transpose(case, ctx):
     from photutils.aperture import (ApertureStats, EllipticalAperture,
                                     RectangularAperture, aperture_photometry)
@@ -388,6 +409,12 @@ def check_transpose(case, ctx):
                           ('covar_sigx2', 'covar_sigy2'), ('center_aper_area', 'center_aper_area')):
                 v0 = np.asarray(value(getattr(s0, c)), float)
                 v1 = np.asarray(value(getattr(s1, cT)), float)
+                if c in ('semimajor_sigma', 'covar_sigx2'):
+                    thin = np.array([_thin(m) for m in
+                                     np.atleast_3d(np.asarray(value(s0.moments_central), float)).reshape(-1, 4, 4)])
+                    if thin.any():
+                        ctx.event('collinear_pixels')
+                    v0, v1 = v0[~thin], v1[~thin]
                 if cls is EllipticalAperture and not np.allclose(v0, v1, rtol=1e-7, atol=1e-7, equal_nan=True):
                     raise Violation('transpose_value',
                                     f'ApertureStats.{c}: {v0} vs transposed '
@@ -410,7 +437,11 @@ def check_transpose(case, ctx):
             cols = [c for c in CAT_COLS if c not in ('perimeter',)]
             t0, t1 = c0.to_table(columns=cols), c1.to_table(columns=cols)
             # same label image transposed -> same labels, same row order
+            mcs = np.asarray(value(c0.moments_central), float).reshape(-1, 4, 4)
             for k in range(len(t0)):
+                if _thin(mcs[k]):
+                    ctx.event('collinear_pixels')
+                    continue
                 for c in cols:
                     cT = SWAP.get(c, c)
                     v0, v1 = float(value(t0[c][k])), float(value(t1[cT][k]))
